@@ -15,6 +15,7 @@ EXPLANATION = (
     "the map happens only in the sweep, only when is_done(), together with epoll_del; the sweep lies on "
     "every path to Ok of requests(); none of mem::forget / into_raw_fd / ManuallyDrop / Box::leak occurs "
     "in server.rs or connection.rs; a Closed connection can never become pending again. "
+    "every request counted in flight is yielded (the returned vector is only accumulated into); descriptors received with a rejected request are closed by the parser reset. "
     "Decides these clauses; descriptor accounting over histories is not decided."
 )
 TRUSTED = ["HashMap::{len,insert,retain}", "dropping a UnixStream closes it"]
